@@ -244,10 +244,12 @@ void worker_main(int t) {
       }
       case OP_INSERT: {
         const auto v = make_value(static_cast<unsigned>(t) + 1, static_cast<unsigned>(i), op.key);
-        const bool ok = H.db->insert(op.key, unodb::value_view{v.data(), v.size()});
+        // entries of key 2 carry a zero-length value (a hit must pin them like any other)
+        const std::size_t vlen = op.key == 2 ? 0 : v.size();
+        const bool ok = H.db->insert(op.key, unodb::value_view{v.data(), vlen});
         Event& e = end_event(t);
         e.ok = ok;
-        e.val = val_str(v);
+        e.val = val_str(v).substr(0, vlen);
         close_event(t);
         break;
       }
@@ -368,8 +370,9 @@ bool run_one(const std::vector<std::uint8_t>& prefix, const std::vector<vsched::
   unsigned idx = 0;
   for (const auto k : H.init) {
     const auto v = make_value(0xEE, idx++, k);
-    (void)H.db->insert(k, unodb::value_view{v.data(), v.size()});
-    init[k] = val_str(v);
+    const std::size_t vlen = k == 2 ? 0 : v.size();
+    (void)H.db->insert(k, unodb::value_view{v.data(), vlen});
+    init[k] = val_str(v).substr(0, vlen);
   }
   g_sched.begin_execution(n, &prefix, &expected);
   g_pool.dispatch(n);
